@@ -1457,6 +1457,40 @@ out:
     mark("free"); fr_dctx(d); for (i = 0; i < 3; i++) if (dds[i]) fr_ddict(dds[i], i);
 }
 
+
+/* a single-use prefix and an allocation failure: after the reset, the SAME operation (same context, same prefix reference given once)
+   must complete correctly.  v 0: ZSTD_DCtx_refPrefix + ZSTD_decompressStream;  1: ZSTD_CCtx_refPrefix + ZSTD_compress2 (the frame must still
+   be compressed against the prefix: its size is compared with the size a fresh context produces);  2: ZSTD_CCtx_refPrefix + streaming */
+static void sc_prefix_retry(int v) {
+    static char pfr[40000]; size_t pfn = 0, refSize = 0; int sg = g_armed; const char* pre = g_src + 2000000; static char srcbuf[30000]; const char* src = srcbuf; size_t const n = 30000; size_t r;
+    memcpy(srcbuf, g_src + 2000100, n);   /* content found in the prefix, at another address */
+    g_armed = 0; { ZSTD_CCtx* pc = ZSTD_createCCtx(); ZSTD_CCtx_setParameter(pc, ZSTD_c_compressionLevel, 3); ZSTD_CCtx_setParameter(pc, ZSTD_c_windowLog, 18); ZSTD_CCtx_refPrefix(pc, pre, 50000); pfn = ZSTD_compress2(pc, pfr, sizeof pfr, src, n); ZSTD_freeCCtx(pc); } g_armed = sg;
+    if (ZSTD_isError(pfn)) { violation("harness-prefix-frame", "prefix"); return; }
+    refSize = pfn;
+    if (v == 0) {
+        ZSTD_DCtx* d; mark("create"); d = mk_dctx(); if (!d) return;
+        mark("refPrefix"); RETRY("DCtx_refPrefix", r = ZSTD_DCtx_refPrefix(d, pre, 50000), ZSTD_isError(r), ZSTD_isError(r) ? r : 0);
+        mark("stream"); op_dstream("dstream-prefix", d, pfr, pfn, src, n, 700, 4096);
+        mark("free"); fr_dctx(d);
+    } else {
+        ZSTD_CCtx* c; int t; mark("create"); c = mk_cctx(); if (!c) return;
+        setp(c, ZSTD_c_compressionLevel, 3); setp(c, ZSTD_c_windowLog, 18);
+        mark("refPrefix"); { beg("refPrefix", -1, -1); r = ZSTD_CCtx_refPrefix(c, pre, 50000); endc(ZSTD_isError(r) ? "E" : "ok"); }
+        mark("compress");
+        for (t = 0; t < MAXTRY; t++) { int nf0 = g_nfailed; size_t cs = 0;
+            beg("compress", -1, -1);
+            if (v == 1) r = ZSTD_compress2(c, g_scratch, g_scratchCap, src, n);
+            else { ZSTD_inBuffer in = { src, n, 0 }; ZSTD_outBuffer o = { g_scratch, g_scratchCap, 0 }; r = ZSTD_compressStream2(c, &o, &in, ZSTD_e_continue); if (!ZSTD_isError(r)) { do { r = ZSTD_compressStream2(c, &o, &in, ZSTD_e_end); } while (!ZSTD_isError(r) && r != 0); } if (!ZSTD_isError(r)) r = o.pos; }
+            judge("compress-prefix", ZSTD_isError(r), ZSTD_isError(r) ? r : 0, nf0, t);
+            if (!ZSTD_isError(r)) { cs = r; check_rt("compress-prefix", g_scratch, cs, src, n, pre, 50000);
+                { char b[64]; snprintf(b, sizeof b, "size-%u-ref-%u", (unsigned)cs, (unsigned)refSize); oplog("compress-prefix", b); }
+                if (cs > refSize + refSize / 2 + 64) violation("prefix-lost-after-failed-attempt", "compress-prefix"); break; }
+            { beg("CCtx_reset", -1, -1); ZSTD_CCtx_reset(c, ZSTD_reset_session_only); endc("ok"); }
+        }
+        mark("free"); fr_cctx(c);
+    }
+}
+
 static const scen_t g_scen[] = {
     { "cctx_create", sc_cctx_create, 0, 0 },
     { "cctx_params", sc_cctx_params, 0, 0 },
@@ -1496,7 +1530,7 @@ static const scen_t g_scen[] = {
     /* round 3 */
     { "leg4_v04", sc_legacy4, 0, 0 }, { "leg4_versions", sc_legacy4, 1, 0 }, { "leg4_oneshot", sc_legacy4, 2, 0 },
     { "refddict_fail_first", sc_refddict_fail, 0, 0 }, { "refddict_fail_expand", sc_refddict_fail, 1, 0 }, { "refddict_fail_first_free", sc_refddict_fail, 2, 0 }, { "refddict_fail_expand_free", sc_refddict_fail, 3, 0 },
-    { "refddict_reset_multi", sc_dctx_reset_multi, 0, 0 }, { "refddict_full", sc_refddict_full, 0, 0 },
+    { "refddict_reset_multi", sc_dctx_reset_multi, 0, 0 }, { "refddict_full", sc_refddict_full, 0, 0 }, { "refddict_prefix_retry", sc_prefix_retry, 0, 0 }, { "prefix_retry_c", sc_prefix_retry, 1, 0 }, { "prefix_retry_cstream", sc_prefix_retry, 2, 0 },
     { "mt3_refpool", sc_mt3_refpool, 0, 0 }, { "mt3_refpool_stream", sc_mt3_refpool, 1, 0 },
     { "copy2_mt_dst", sc_copy_cctx2, 0, 0 }, { "copy2_l19", sc_copy_cctx2, 1, 1 }, { "copy2_twice", sc_copy_cctx2, 2, 0 },
     { "train_r3_cover_dk", sc_train2, 0, 1 }, { "train_r3_cover_dk_mt3", sc_train2, 1, 1 }, { "train_r3_fastcover_d_mt3", sc_train2, 2, 1 }, { "train_r3_cover_split1", sc_train2, 3, 1 },
